@@ -7,6 +7,7 @@ import (
 	"go.sia.tech/core/consensus"
 	"go.sia.tech/core/types"
 	"pgregory.net/rapid"
+	"verif/harness/gen"
 	"verif/harness/ref"
 )
 
@@ -621,6 +622,36 @@ func (g *Gen) SetupBound(rule string) (sc BoundScenario, ok bool) {
 			return a.manyV1(tx1, tx2)
 		}
 		return sc, true
+	case "v1-single-key-timelock", "v1-single-key-timelock-revealed-without-the-lock":
+		// One key, one signature, and a timelock: everything about these conditions is "standard" except the lock. The
+		// output is paid to their address as the Merkle-tree definition gives it (gen.RefUnlockHash), which is what any
+		// other implementation and every block explorer computes. Revealing the conditions themselves spends the output
+		// from child height T on; revealing the same key's standard conditions (no lock) never does - they are other
+		// conditions with another address.
+		if child >= net.HardforkV2.RequireHeight {
+			return sc, false
+		}
+		T := child + ahead
+		locked := types.UnlockConditions{Timelock: T, PublicKeys: []types.UnlockKey{Pub(1).UnlockKey()}, SignaturesRequired: 1}
+		id, okp := b.PayV1To(gen.RefUnlockHash(locked))
+		if !okp || !finish() {
+			return sc, false
+		}
+		reveal := locked
+		sc.Want = func(a *Adv) bool { return a.Child >= T }
+		if rule != "v1-single-key-timelock" {
+			reveal = types.StandardUnlockConditions(Pub(1))
+			sc.Want = func(a *Adv) bool { return false }
+		}
+		sc.From, sc.To = T-2, T+1
+		sc.Build = func(a *Adv) (types.Block, consensus.V1BlockSupplement, bool) {
+			txn, ok := a.spendV1Forced(id, Lock{UC: &reveal}, 0)
+			if !ok || !a.v1Allowed() {
+				return types.Block{}, consensus.V1BlockSupplement{}, false
+			}
+			return a.oneV1(txn)
+		}
+		return sc, true
 	case "v1-devaddr-override-timelock":
 		// The developer fund's siafund output sits at the old address and is spent with the unlock conditions of the new
 		// one (address override from HardforkDevAddr.Height on). Those conditions are unlock conditions like any others:
@@ -720,6 +751,7 @@ var BoundRules = []string{
 	"v2-above", "v2-after", "v1-revision-window-start", "v1-revision-window-unchanged", "v1-proof-window", "v1-formation-window-start", "v1-proof-after-window-revised-in-block",
 	"v2-revision-proof-height", "v2-proof-height", "v2-expiration-height", "v2-formation-proof-height",
 	"v1-until-require-height", "v2-from-allow-height", "v2-ephemeral-parent-maturity", "v1-in-block-claim-maturity", "v1-devaddr-override-timelock",
+	"v1-single-key-timelock", "v1-single-key-timelock-revealed-without-the-lock",
 }
 
 // EmptyBlock applies an honest block without transactions (used to advance the chain).
